@@ -2,10 +2,13 @@ package props
 
 import (
 	"encoding/json"
+	"encoding/xml"
 	"fmt"
+	"io"
 	"os"
 	"os/exec"
 	"regexp"
+	"sort"
 	"strings"
 
 	"github.com/jf-tech/omniparser"
@@ -222,6 +225,12 @@ func c15Variants() map[string][]string {
 	}
 }
 
+func c15SameRefJ2(a, b string) bool {
+	ja, ea := c15RefJ2(a)
+	jb, eb := c15RefJ2(b)
+	return ea == nil && eb == nil && ja == jb
+}
+
 func c15SumCheck(cs c15SumCase) (sig, detail string) {
 	var f *c17Fmt
 	for _, x := range c17Formats() {
@@ -255,8 +264,8 @@ func c15SumCheck(cs c15SumCase) (sig, detail string) {
 	switch {
 	case same && sa != sb:
 		return "equal-records-different-checksums:" + cs.Fmt, fmt.Sprintf("%q twice: %s vs %s (raw %s / %s)", cs.RecA, sa, sb, ra, rb)
-	case !same && sa == sb && ra == rb && strings.HasPrefix(cs.Fmt, "xml"):
-		// the canonical JSON the checksum is computed from already drops the difference
+	case !same && sa == sb && strings.HasPrefix(cs.Fmt, "xml") && c15SameRefJ2(cs.RecA, cs.RecB):
+		// the JSON rendering the checksum is computed from is documented not to carry the difference
 		return "xml-canonical-json-drops-mixed-text-and-array-element-attributes", fmt.Sprintf("%q and %q have the same canonical JSON %s, hence the same checksum %s", cs.RecA, cs.RecB, ra, sa)
 	case !same && sa == sb:
 		return "different-records-same-checksum:" + cs.Fmt, fmt.Sprintf("%q and %q both give %s (raw %s / %s)", cs.RecA, cs.RecB, sa, ra, rb)
@@ -264,11 +273,227 @@ func c15SumCheck(cs c15SumCase) (sig, detail string) {
 	return "", ""
 }
 
+// c15RefJ2 is the rendering of an XML record as JSON the way idr/marshal2.go documents it, written
+// down independently from the record's text (encoding/xml tokens): an element with character data
+// and no child elements is its text (attributes not rendered); an element with two or more child
+// elements that all have one name is the list of their renderings (the name, the element's
+// attributes and its character data are not rendered); any other element is an object of its child
+// elements by name (a repeated name gives a list) plus "#attributes" (character data next to child
+// elements is not rendered). Those omissions are the known finding; whatever else two different
+// records may share, it is not this rendering.
+func c15RefJ2(rec string) (string, error) {
+	type el struct {
+		name  string
+		attrs [][2]string
+		kids  []*el
+		text  []string
+		elems int
+	}
+	dec := xml.NewDecoder(strings.NewReader(rec))
+	root := &el{}
+	stack := []*el{root}
+	for {
+		tok, err := dec.Token()
+		if err == io.EOF {
+			break
+		}
+		if err != nil {
+			return "", err
+		}
+		top := stack[len(stack)-1]
+		switch t := tok.(type) {
+		case xml.StartElement:
+			e := &el{name: t.Name.Local}
+			for _, a := range t.Attr {
+				e.attrs = append(e.attrs, [2]string{a.Name.Local, a.Value})
+			}
+			top.kids = append(top.kids, e)
+			top.elems++
+			stack = append(stack, e)
+		case xml.EndElement:
+			stack = stack[:len(stack)-1]
+		case xml.CharData:
+			top.text = append(top.text, string(t))
+		}
+	}
+	var inner func(e *el) string
+	inner = func(e *el) string { // (records of the families have no mixed content below a text-only element)
+		return strings.Join(e.text, "")
+	}
+	var conv func(e *el) interface{}
+	conv = func(e *el) interface{} {
+		if len(e.text) > 0 && e.elems == 0 {
+			return inner(e)
+		}
+		sameName := e.elems > 1
+		for _, k := range e.kids {
+			if k.name != e.kids[0].name {
+				sameName = false
+			}
+		}
+		if sameName {
+			arr := []interface{}{}
+			for _, k := range e.kids {
+				arr = append(arr, conv(k))
+			}
+			return arr
+		}
+		obj := map[string]interface{}{}
+		isArr := map[string]bool{}
+		for _, k := range e.kids {
+			v := conv(k)
+			if prev, found := obj[k.name]; found {
+				if isArr[k.name] {
+					obj[k.name] = append(prev.([]interface{}), v)
+				} else {
+					obj[k.name] = []interface{}{prev, v}
+					isArr[k.name] = true
+				}
+			} else {
+				obj[k.name] = v
+			}
+		}
+		if len(e.attrs) > 0 {
+			at := map[string]interface{}{}
+			for _, a := range e.attrs {
+				at[a[0]] = a[1]
+			}
+			obj["#attributes"] = at
+		}
+		return obj
+	}
+	if len(root.kids) != 1 {
+		return "", fmt.Errorf("not one record: %s", rec)
+	}
+	b, err := json.Marshal(conv(root.kids[0]))
+	return string(b), err
+}
+
+// ---- checksums of XML records of every small shape ----
+
+// c15XMLShapes enumerates records <a>...</a> with up to n elements below <a>, names {e,x}, an element
+// having either children or a text out of {"", 1, 2} (no attributes, no mixed content: what the known
+// finding is about stays out). canon is the record's content up to the order of differently named
+// siblings: text, or name -> the children of that name in document order.
+func c15XMLShapes(n int, visit func(doc, canon string)) {
+	names := []string{"e", "x"}
+	texts := []string{"", "1", "2"}
+	for total := 1; total <= n+1; total++ {
+		gen.Shapes(total, 4, func(parent []int) bool {
+			kids := make([][]int, total)
+			for i := 1; i < total; i++ {
+				kids[parent[i]] = append(kids[parent[i]], i)
+			}
+			radix := make([]int, total)
+			for i := range radix {
+				radix[i] = len(names) * len(texts)
+			}
+			radix[0] = len(texts)
+			gen.Counter(radix, func(d []int) bool {
+				valid := true
+				var render func(i int) (string, string)
+				render = func(i int) (string, string) {
+					name, text := "a", texts[d[i]%len(texts)]
+					if i > 0 {
+						name = names[d[i]/len(texts)]
+					}
+					if len(kids[i]) == 0 {
+						return "<" + name + ">" + text + "</" + name + ">", fmt.Sprintf("%q", text)
+					}
+					if text != "" {
+						valid = false // (one rendering per shape: inner elements carry no text)
+					}
+					var doc strings.Builder
+					by := map[string][]string{}
+					doc.WriteString("<" + name + ">")
+					for _, k := range kids[i] {
+						kd, kc := render(k)
+						doc.WriteString(kd)
+						kn := names[d[k]/len(texts)]
+						by[kn] = append(by[kn], kc)
+					}
+					doc.WriteString("</" + name + ">")
+					var ks []string
+					for k := range by {
+						ks = append(ks, k)
+					}
+					sort.Strings(ks)
+					var c strings.Builder
+					c.WriteString("{")
+					for _, k := range ks {
+						c.WriteString(k + ":[" + strings.Join(by[k], ",") + "]")
+					}
+					c.WriteString("}")
+					return doc.String(), c.String()
+				}
+				doc, canon := render(0)
+				if valid {
+					visit(doc, canon)
+				}
+				return true
+			})
+			return true
+		})
+	}
+}
+
+// c15XMLShapeCheck transforms all the records in one document and groups them by checksum: records
+// whose content differs must not share one.
+func c15XMLShapeCheck(n int) (records, known int, sig, detail string, pair *c15SumCase) {
+	var f *c17Fmt
+	for _, x := range c17Formats() {
+		if x.Name == "xml-basic" {
+			x := x
+			f = &x
+		}
+	}
+	schema, err, _ := hx.NewSchema("s", f.Schema)
+	if err != nil {
+		return 0, 0, "harness:schema", err.Error(), nil
+	}
+	var docs, canons []string
+	c15XMLShapes(n, func(doc, canon string) {
+		docs = append(docs, `<a k="x">`+strings.TrimPrefix(doc, "<a>"))
+		canons = append(canons, canon)
+	})
+	r := hx.Run(schema, strings.NewReader(f.Prefix+strings.Join(docs, "")+f.Suffix), hx.Opts{Raw: true, MaxReads: len(docs) + 10})
+	var sums []string
+	for _, st := range r.Steps {
+		if st.Kind == "rec" || st.Kind == "fail" {
+			sums = append(sums, st.Sum)
+		}
+	}
+	if len(sums) != len(docs) {
+		return len(docs), 0, "harness:record-count", fmt.Sprintf("%d records in, %d results out", len(docs), len(sums)), nil
+	}
+	first := map[string]int{}
+	for i, s := range sums {
+		if s == "" {
+			continue
+		}
+		if j, seen := first[s]; seen {
+			if canons[j] != canons[i] && !c15SameRefJ2(docs[j], docs[i]) {
+				pair := &c15SumCase{Fmt: "xml-basic", RecA: docs[j], RecB: docs[i]}
+				if sig, detail := c15SumCheck(*pair); sig != "" { // (the pair on its own, as the replay runs it)
+					return len(docs), known, sig, detail, pair
+				}
+				return len(docs), known, "harness:not-reproducible", fmt.Sprintf("%s and %s shared the checksum %s in the long document, but not when transformed alone", docs[j], docs[i], s), pair
+			}
+			if canons[j] != canons[i] {
+				known++ // only the common name of same-named children differs: the documented rendering
+			}
+		} else {
+			first[s] = i
+		}
+	}
+	return len(docs), known, "", "", nil
+}
+
 func init() {
 	core.Register(&core.Prop{
 		ID:    "C15",
 		Level: "exploration",
-		Rule:  "jobs = 19 (schema, input, externals) triples covering all seven formats, templates, xpath_dynamic, javascript(_with_context), copy, uuidv3, date-time functions, XML namespaces incl. one URI bound twice, typed external properties (one schema text, three property sets), dotted sibling object keys failing together, a script that throws while holding arguments and one that looks for globals it was not given, the same schema under the built-in extension and under a caller's extension that overrides 'upper'; histories are run both with every job parsing its schema anew and with jobs of equal schema text sharing ONE Schema object; every history of up to 2 (thorough 3) earlier jobs followed by a probe job is run in one process (pools and caches warm, ID counter advanced; state reset only between histories) and the probe's full transcript (bytes, checksums, raw records, errors) must equal the transcript of the same job in a FRESH process (3 fresh subprocesses per job, which must also agree with each other); no emitted record may contain a UUID-shaped string that is not in the input (declaration hashes are UUIDs); checksums: every pair from a per-format record alphabet (equal content, one value changed, shape changed) must have equal checksums iff the records are equal; distinct by (history, probe) / (format, record pair)",
+		Rule:  "jobs = 19 (schema, input, externals) triples covering all seven formats, templates, xpath_dynamic, javascript(_with_context), copy, uuidv3, date-time functions, XML namespaces incl. one URI bound twice, typed external properties (one schema text, three property sets), dotted sibling object keys failing together, a script that throws while holding arguments and one that looks for globals it was not given, the same schema under the built-in extension and under a caller's extension that overrides 'upper'; histories are run both with every job parsing its schema anew and with jobs of equal schema text sharing ONE Schema object; every history of up to 2 (thorough 3) earlier jobs followed by a probe job is run in one process (pools and caches warm, ID counter advanced; state reset only between histories) and the probe's full transcript (bytes, checksums, raw records, errors) must equal the transcript of the same job in a FRESH process (3 fresh subprocesses per job, which must also agree with each other); no emitted record may contain a UUID-shaped string that is not in the input (declaration hashes are UUIDs); checksums: every pair from a per-format record alphabet (equal content, one value changed, shape changed) must have equal checksums iff the records are equal; every XML record of up to 5 (thorough 6) elements over two names and three texts (no attributes, no mixed content), all in one document: records of different content (up to the order of differently named siblings) never share a checksum; distinct by (history, probe) / (format, record pair)",
 		Assumptions: []string{
 			"Go map iteration order cannot be enumerated: order dependence is exposed only through repetition (every probe runs at least 100 times across histories), which is stated here rather than claimed exhaustive",
 			"the `now` function and scripts drawing randomness are excluded by the property",
@@ -367,6 +592,24 @@ func init() {
 							c.Violation(sig, detail, map[string]interface{}{"checksum": cs}, func() string { s, _ := c15SumCheck(cs); return s })
 						}
 					}
+				}
+			}
+			// checksums of XML records of every small shape
+			idx++
+			if c.Mine(idx) {
+				n := 5
+				if !c.Quick() {
+					n = 6
+				}
+				c.Begin(func() interface{} { return map[string]interface{}{"xml_record_shapes_up_to": n} })
+				recs, known, sig, detail, pair := c15XMLShapeCheck(n)
+				c.Count("xml_record_shapes_checksummed", int64(recs))
+				c.Count("xml_record_shapes_sharing_a_checksum_by_the_documented_rendering", int64(known))
+				c.Eval("sum|xml-record-shapes")
+				if strings.HasPrefix(sig, "harness:") {
+					c.HarnessError(sig + ": " + detail)
+				} else if sig != "" {
+					c.Violation(sig, detail, map[string]interface{}{"checksum": pair}, func() string { s, _ := c15SumCheck(*pair); return s })
 				}
 			}
 		},
